@@ -21,6 +21,7 @@
 #include "build.h"
 #include "dyndep.h"
 #include "build_log.h"
+#include "deps_log.h"
 
 struct State;
 struct Node;
@@ -60,7 +61,9 @@ struct Cleaner {
   /// Clean the files produced by previous builds that are no longer in the
   /// manifest.
   /// @return non-zero if an error occurs.
-  int CleanDead(const BuildLog::Entries& entries);
+  /// @param deps_log if given, a file that a live output's recorded
+  ///                 dependencies name is not dead.
+  int CleanDead(const BuildLog::Entries& entries, DepsLog* deps_log = NULL);
 
   /// @return the number of file cleaned.
   int cleaned_files_count() const {
